@@ -488,6 +488,8 @@ func init() {
 			{Name: "PATH-SEEK", What: "Seek: lastChunk = {off,off} exactly on the success edge of the in-block seek; the sticky error is re-assigned on every path", Floor: 1, Run: rulePathSeek},
 			{Name: "PATH-NEXTBLOCK", What: "nextBlock reports a read-ahead result (data or error) only for the decompressor whose base matched the expected one", Floor: 1, Run: ruleNextBlock},
 			{Name: "CUR-BLOCK", What: "block.Read/ReadByte/seek/setBase keep offset (the source of LastChunk) in step with what was consumed", Floor: 4, Run: ruleCurBlock},
+			{Name: "STICKY-ERR", What: "Reader.Read/ReadByte return the recorded error at once and do not touch it – also io.EOF in Blocked mode: the end of the data is final until a Seek (added after fifth-round seed C02-f)", Floor: 2, Run: ruleReaderStickyErr},
+			{Name: "POOL-BARE", What: "wait() takes the block out of the decompressor on every path, failed reads included, and only bare decompressors go back to the pool: otherwise the reader and a decompressor share a block (shared with C01/C09; under C02 since fifth-round seed C02-e)", Floor: 4, Run: rulePoolBare},
 			{Name: "PATH-BLOCKSEEK", What: "(*block).seek positions the buffer on every path and records the in-block offset on the success edge only (added after a blind second seed round)", Floor: 2, Run: ruleBlockSeek},
 			{Name: "CUR-SEEKOFF", What: "countReader.seek records the new offset only after the underlying Seek succeeded (added after a blind second seed round)", Floor: 1, Run: ruleSeekOff},
 			{Name: "BASE-DROPS-DATA", What: "a block given a new base has no data until a read into it succeeded (setBase clears the buffer; hasData tests it)", Floor: 2, Run: ruleBaseDropsData},
